@@ -371,7 +371,7 @@ Definition fnv_op (kind : Z) (s : list Z) (h n : Z) : list Z :=
   else [ST_BADCASE].
 
 (* one branch per helper; [rest] are the argument groups after the [op] group *)
-Definition run_op (op : Z) (rest : list (list Z)) : list Z :=
+Definition run_op_base (op : Z) (rest : list (list Z)) : list Z :=
   if op =? 1 then match rest with [a] => [ST_OK; cstrlen a] | _ => [ST_BADCASE] end
   else if op =? 2 then match rest with [a] => ST_OK :: cstr_to_bytes a | _ => [ST_BADCASE] end
   else if op =? 3 then match rest with [a] => ST_OK :: cstr_tolower a | _ => [ST_BADCASE] end
@@ -406,6 +406,75 @@ Definition run_op (op : Z) (rest : list (list Z)) : list Z :=
        | [content; key] => wire (fun i => [i; b2z (0 <? i)]) (file_find_record content key)
        | _ => [ST_BADCASE] end
   else [ST_BADCASE].
+
+(* ------------------------------------------------------------------ the surroundings of a call *)
+(* op 28: a helper called on buf[:n] of a LARGER buffer (len < cap, any bytes behind the input). Group k holds the
+   whole buffer; with n_k >= 0 the helper sees its first n_k bytes, with n_k < 0 (or no n_k) the group as it is.
+   A Go slice is (pointer, len, cap): the helpers are specified on the len bytes, so the call answers what it answers
+   on the inputs alone, and the bytes behind every input are afterwards what they were. *)
+Definition win_cut (n : Z) (g : list Z) : list Z := if n <? 0 then g else firstn (Z.to_nat n) g.
+Definition win_tail (n : Z) (g : list Z) : list Z := if n <? 0 then [] else skipn (Z.to_nat n) g.
+Fixpoint win_ok (ns : list Z) (gs : list (list Z)) : bool :=
+  match ns, gs with
+  | [], _ => true
+  | n :: ns', g :: gs' => (n <=? lenZ g) && win_ok ns' gs'
+  | _ :: _, [] => false
+  end.
+Fixpoint win_args (ns : list Z) (gs : list (list Z)) : list (list Z) :=
+  match ns, gs with
+  | n :: ns', g :: gs' => win_cut n g :: win_args ns' gs'
+  | _, _ => gs
+  end.
+Fixpoint win_tails (ns : list Z) (gs : list (list Z)) : list Z :=
+  match ns, gs with
+  | n :: ns', g :: gs' => win_tail n g ++ win_tails ns' gs'
+  | _, _ => []
+  end.
+Definition run_window (rest : list (list Z)) : list Z :=
+  match rest with
+  | [iop] :: ns :: gs =>
+      if win_ok ns gs then
+        let out := run_op_base iop (win_args ns gs) in
+        if hd 9 out =? ST_OK then ST_OK :: lenZ out :: out ++ win_tails ns gs else out
+      else [ST_BADCASE]
+  | _ => [ST_BADCASE]
+  end.
+
+(* op 29: helpers called by several goroutines of one process at the same time. The helpers have no state of their
+   own: whatever the number of goroutines, the number of rounds and the interleaving, every call answers what it
+   answers alone - ONE distinct answer per case. The cases come as  [k; iop] :: k argument groups  one after another. *)
+Fixpoint conc_outs (fuel : nat) (gs : list (list Z)) : option (list (list Z)) :=
+  match fuel with
+  | O => None
+  | S f =>
+      match gs with
+      | [] => Some []
+      | [k; iop] :: r =>
+          if (k <? 0) || (lenZ r <? k) then None
+          else match conc_outs f (skipn (Z.to_nat k) r) with
+               | Some t => Some (run_op_base iop (firstn (Z.to_nat k) r) :: t)
+               | None => None
+               end
+      | _ => None
+      end
+  end.
+Fixpoint wire_conc (outs : list (list Z)) : list Z :=
+  match outs with [] => [] | o :: r => 1 :: lenZ o :: o ++ wire_conc r end.
+Definition run_conc (rest : list (list Z)) : list Z :=
+  match rest with
+  | [g; rounds] :: gs =>
+      if (g <? 1) || (64 <? g) || (rounds <? 1) then [ST_BADCASE]
+      else match conc_outs (S (length gs)) gs with
+           | Some outs => ST_OK :: lenZ outs :: wire_conc outs
+           | None => [ST_BADCASE]
+           end
+  | _ => [ST_BADCASE]
+  end.
+
+Definition run_op (op : Z) (rest : list (list Z)) : list Z :=
+  if op =? 28 then run_window rest
+  else if op =? 29 then run_conc rest
+  else run_op_base op rest.
 
 Definition run_case (args : list (list Z)) : list Z :=
   match args with
